@@ -297,7 +297,56 @@ def special_layout(g, which):
         for k in range(r.choice([1, 3])):
             ops.append({'op': 'add_fp', 'cid': 7860 + k, 'length': 1, 'udf_path': '/data/h%05d' % k})
         return cfg, ops
+    if which in ('shrink-subdir', 'grow-subdir'):
+        # a non-root directory that has subdirectories grows over / shrinks below sector boundaries:
+        # the '..' records of its subdirectories (and '.' of itself) must follow
+        rr = r.choice([None, None, '1.09', '1.12'])
+        cfg = Cfg(level=r.choice([1, 2, 3]), joliet=r.choice([None, 3]), rr=rr, udf=r.random() < 0.25)
+        top = r.choice(['/D', '/P/D'])
+        ops = []
+
+        def mk(op, path, **kw):
+            o = dict(op=op, iso_path=path, **kw)
+            if rr and op in ('add_fp', 'add_directory'):
+                o['rr_name'] = path.rsplit('/', 1)[1].split('.')[0].split(';')[0].lower()
+            if cfg.joliet and op != 'rm_file' and r.random() < 0.7:
+                o['joliet_path'] = path.lower().replace('.;1', '')
+            return o
+        made_j = set()
+        if top == '/P/D':
+            ops.append(mk('add_directory', '/P'))
+        ops.append(mk('add_directory', top))
+        subs = [top + '/S1', top + '/S2', top + '/S1/T']
+        n = r.choice([60, 100, 150])
+        files = [top + '/F%03d.;1' % k for k in range(n)]
+        if which == 'shrink-subdir':
+            for sdir in subs:
+                ops.append(mk('add_directory', sdir))
+        for k, f in enumerate(files):
+            ops.append(mk('add_fp', f, cid=7900 + k, length=r.choice([0, 7, 2048])))
+        if which == 'grow-subdir':
+            for sdir in subs:
+                ops.append(mk('add_directory', sdir))
+            for k in range(r.choice([0, 50])):
+                ops.append(mk('add_fp', top + '/G%03d.;1' % k, cid=8100 + k, length=3))
+        # a Joliet parent must exist for a Joliet child: drop joliet paths whose parent was not made
+        for o in ops:
+            jp = o.get('joliet_path')
+            if jp:
+                par = jp.rsplit('/', 1)[0]
+                if par and par not in made_j:
+                    del o['joliet_path']
+                elif o['op'] == 'add_directory':
+                    made_j.add(jp)
+        if which == 'shrink-subdir':
+            keep = r.choice([0, 10, 40])
+            order = list(files)
+            r.shuffle(order)
+            for f in order[keep:]:
+                ops.append({'op': 'rm_file', 'iso_path': f})
+        return cfg, ops
     raise ValueError(which)
 
 
-SPECIALS = ['exact-fill', 'udf-big-dir', 'udf-exact-fill', 'exact-fill-root', 'exact-fill-multi', 'exact-fill-spill']
+SPECIALS = ['exact-fill', 'udf-big-dir', 'udf-exact-fill', 'exact-fill-root', 'exact-fill-multi', 'exact-fill-spill',
+            'shrink-subdir', 'grow-subdir']
